@@ -22,7 +22,11 @@ def run_designer(name, keys, seed, rounds, batch):
   from props import c03
   from vizier import algorithms as vza
   from vizier import pyvizier as vz
-  restart = name.endswith('@restart')     # a history with checkpoint restores (dump -> new instance -> load) in it
+  restart = name.endswith(('@restart', '@restart0'))     # a history with checkpoint restores (dump -> new instance -> load) in it
+  unseeded_new_instance = name.endswith('@restart0')
+  if name.endswith('@npseed'):            # the seed arrives as a numpy integer (np.arange, rng.integers, SeedSequence, ...)
+    import numpy as np
+    seed = np.int64(seed)
   name = name.split('@')[0]
   ds = c03.designers('thorough' if name.startswith('gp') else 'quick')
   goals = ('MAXIMIZE', 'MINIMIZE') if name == 'nsga2' else ('MAXIMIZE',)
@@ -35,7 +39,7 @@ def run_designer(name, keys, seed, rounds, batch):
       md = d.dump()
       # as a hosting policy does: a new instance built without a seed, then restored - for the designers whose checkpoint
       # carries their random stream; NSGA-II's does not (its stream is not part of its state), it is rebuilt with the seed
-      d2 = ds[name](prob, None if name in ('eagle', 'quasi_random', 'shuffled_grid') else seed)
+      d2 = ds[name](prob, None if (unseeded_new_instance and name in ('eagle', 'quasi_random', 'shuffled_grid')) else seed)
       d2.load(md)
       d = d2
     sugg = list(d.suggest(batch))
@@ -108,7 +112,11 @@ def run(ctx):
       for seed in (s, s + 1):
         jobs.append([name, list(sp), seed])
       if name in ('eagle', 'nsga2', 'quasi_random', 'shuffled_grid') and sp == spaces[0]:
-        jobs.append([name + '@restart', list(sp), s])
+        jobs.append([name + '@restart', list(sp), s])      # new instance built with the same seed
+        if name != 'nsga2':
+          jobs.append([name + '@restart0', list(sp), s])   # new instance built without a seed
+      if sp == spaces[0] or (name == 'cmaes'):
+        jobs.append([name + '@npseed', list(sp), s])
   benchmarks = [[a, e, sd] for a in ('random', 'quasi_random', 'eagle', 'nsga2', 'shuffled_grid') for e in ('branin', 'sphere') for sd in (s, s + 1)]
   if not q:
     for name in ('gp_bandit', 'gp_ucb_pe'):
@@ -147,7 +155,7 @@ def run(ctx):
         continue
       tol = 1e-6 if 'x64' in r['task']['perturbations'] else 0.0
       if not _close(val, other, tol):
-        who = key.split('|')[0] if not key.startswith('bench') else 'bench:' + key.split('|')[1]
+        who = key.split('|')[0].split('@')[0] if not key.startswith('bench') else 'bench:' + key.split('|')[1]
         ps = r['task']['perturbations']
         if len(ps) == 1:
           broken_by_single.add((who, ps[0]))
@@ -158,7 +166,7 @@ def run(ctx):
   # the same seed, problem and history must give the same suggestions however often the designer was check-pointed on the way
   # (designers whose whole stream is fixed by the seed: quasi-random, shuffled grid)
   for name, sp, seed in jobs:
-    if name.endswith('@restart') and name.split('@')[0] in ('quasi_random', 'shuffled_grid'):
+    if name.endswith(('@restart', '@restart0')) and name.split('@')[0] in ('quasi_random', 'shuffled_grid'):
       a = base['result'].get('%s|%s|%d' % (name.split('@')[0], '+'.join(sp), seed))
       b = base['result'].get('%s|%s|%d' % (name, '+'.join(sp), seed))
       pairs += 1
@@ -166,6 +174,15 @@ def run(ctx):
         ctx.violation('C14|not-reproducible|%s|checkpoint-restores' % name.split('@')[0],
                       '%s on %s seed %d: the run with dump/load restores in it differs from the plain run:\n  %s\n  %s' % (name.split('@')[0], sp, seed, json.dumps(a)[:300], json.dumps(b)[:300]),
                       {'designer': name, 'space': sp})
+  # a seed is a number: given as a numpy integer it selects the same stream as the equal Python int
+  for name, sp, seed in jobs:
+    if name.endswith('@npseed'):
+      a = base['result'].get('%s|%s|%d' % (name.split('@')[0], '+'.join(sp), seed))
+      b = base['result'].get('%s|%s|%d' % (name, '+'.join(sp), seed))
+      pairs += 1
+      if not isinstance(a, str) and not isinstance(b, str) and a != b:      # (a designer may refuse the type with an error)
+        ctx.violation('C14|numpy-integer-seed-differs|%s' % name.split('@')[0],
+                      '%s on %s: seed np.int64(%d) gives %s, seed %d gives %s' % (name.split('@')[0], sp, seed, json.dumps(b)[:240], seed, json.dumps(a)[:240]), {'designer': name, 'space': sp})
   # different seeds -> different streams
   seeds_checked = 0
   for name, sp, seed in jobs:
